@@ -38,7 +38,7 @@ def main():
         os.makedirs(os.path.join(wt, "out", "m1"), exist_ok=True)
         import re as _re
         txt = open(demo, encoding="utf-8").read()
-        txt = _re.sub(r"/tmp/seed/(?:C\d\d|S\d|T\d|U\d)", wt, txt)  # demos written in an agent's worktree may assert their own location
+        txt = _re.sub(r"/tmp/seed/(?:C\d\d|S\d|T\d|U\d|V\d)", wt, txt)  # demos written in an agent's worktree may assert their own location
         open(os.path.join(wt, "out", "m1", "demo.py"), "w", encoding="utf-8").write(txt)
         rc0, o0 = sh("/venv/bin/python out/m1/demo.py", cwd=wt, env=env)
         res["demo_without"] = rc0
